@@ -1,5 +1,6 @@
 #!/usr/bin/env python3
-"""Re-run every seeded change against the current /repo HEAD and its detecting checks.
+"""Re-run every seeded change against the current /repo HEAD and its detecting checks, on a scratch
+copy of the repository ($SEEDTREE, default /root/seedtree; /repo itself is only read).
 
 Patches were made against older trees; contexts drift as fixes land, so a patch that no longer
 applies with `git apply` is tried with `patch --fuzz=3`.  Results are written back to each
@@ -23,6 +24,9 @@ def main():
     if sh("git -C /repo status --short").stdout.strip():
         print("refusing: /repo is dirty")
         return 2
+    tree = os.environ.get("SEEDTREE", "/root/seedtree")
+    cpus = os.environ.get("CPUS")
+    pin = f"taskset -c {cpus} " if cpus else ""
     rows = []
     for name in sorted(os.listdir(root)):
         if names and name not in names:
@@ -30,29 +34,32 @@ def main():
         d = os.path.join(root, name)
         meta = json.load(open(os.path.join(d, "meta.json")))
         patch = os.path.join(d, "patch.diff")
-        how = "git apply"
-        r = sh(f"git -C /repo apply {patch}")
+        sh(f"rm -rf {tree} && mkdir -p {tree} && rsync -a --exclude .git --exclude __pycache__ --exclude docs "
+           f"--exclude benchmarks /repo/ {tree}/")
+        how = "patch"
+        r = sh(f"cd {tree} && patch -p1 --fuzz=0 --no-backup-if-mismatch -s < {patch}")
         if r.returncode != 0:
             how = "patch --fuzz=3"
-            r = sh(f"cd /repo && patch -p1 --fuzz=3 --no-backup-if-mismatch -s < {patch}")
+            sh(f"rm -rf {tree} && mkdir -p {tree} && rsync -a --exclude .git --exclude __pycache__ --exclude docs "
+               f"--exclude benchmarks /repo/ {tree}/")
+            r = sh(f"cd {tree} && patch -p1 --fuzz=3 --no-backup-if-mismatch -s < {patch}")
         res = dict(head=head, applied_with=how, applies=r.returncode == 0)
         try:
             if r.returncode == 0:
-                imp = sh("cd /repo && /venv/bin/python -c 'import repid'")
+                imp = sh(f"cd {tree} && PYTHONPATH={tree} /venv/bin/python -c 'import repid'")
                 res["imports"] = imp.returncode == 0
-                demo = sh(f"cd /repo && PYTHONPATH=/repo timeout 600 /venv/bin/python {d}/demo.py")
+                demo = sh(f"cd {tree} && PYTHONPATH={tree} timeout 600 /venv/bin/python {d}/demo.py")
                 res["demo_exit_with_change"] = demo.returncode
                 checks = meta.get("detected_by") or [meta.get("property")]
                 det = {}
                 for c in checks:
-                    rr = sh(f"cd /verif && ./check {c} quick")
+                    rr = sh(f"cd /verif && REPID_TREE={tree} MC_OUT={tree}.out {pin}./check {c} quick")
                     viols = len(re.findall(r"^VIOLATION property=", rr.stdout, re.M))
                     det[c] = dict(exit=rr.returncode, violations=viols)
                 res["checks"] = det
                 res["detected_by"] = [c for c, v in det.items() if v["exit"] == 1 and v["violations"] > 0]
         finally:
-            sh("git -C /repo checkout -- . && git -C /repo clean -fdq -- repid")
-            sh("cd /verif && git checkout -- evidence 2>/dev/null")
+            sh(f"rm -rf {tree} {tree}.out")
         meta["reverified"] = res
         json.dump(meta, open(os.path.join(d, "meta.json"), "w"), indent=1)
         rows.append((name, res))
